@@ -100,6 +100,11 @@ func (e *Exec) sbv2int(t *Term) *Term {
 	if t.IsConst() {
 		return e.tt.Int64(int64(t.U))
 	}
+	if e.env != nil {
+		if x, ok := e.env.exact[t]; ok {
+			return x
+		}
+	}
 	u := e.tt.intern(&Term{Op: "bv2nat", Args: []*Term{t}, Sort: SInt})
 	two63 := e.tt.Int(new(big.Int).Lsh(big.NewInt(1), 63))
 	two64 := e.tt.Int(new(big.Int).Lsh(big.NewInt(1), 64))
@@ -110,6 +115,18 @@ func (e *Exec) ubv2int(t *Term) *Term {
 		return e.tt.Int(new(big.Int).SetUint64(t.U))
 	}
 	return e.tt.intern(&Term{Op: "bv2nat", Args: []*Term{t}, Sort: SInt})
+}
+
+// exactBV64 converts an integer term that the path condition confines to the int64 range
+func (e *Exec) exactBV64(t *Term) *Term {
+	b := e.int2bv64(t)
+	if e.env != nil && !b.IsConst() {
+		if e.env.exact == nil {
+			e.env.exact = map[*Term]*Term{}
+		}
+		e.env.exact[b] = t
+	}
+	return b
 }
 
 // int2bv64 converts an Int term to a 64-bit vector (wrapping)
@@ -162,7 +179,15 @@ func init() {
 		return bv(e.tt.IntBin("-", e.big(a[0]), e.sbv2int(a[1].(*Term))))
 	})
 	reg("("+sdkT+"Int).ToDec", func(e *Exec, a []Value) Value { return bv(e.tt.IntBin("*", e.big(a[0]), e.tt.Int(prec))) })
-	reg("("+sdkT+"Int).Int64", func(e *Exec, a []Value) Value { return e.int2bv64(e.big(a[0])) })
+	reg("("+sdkT+"Int).Int64", func(e *Exec, a []Value) Value {
+		t := e.big(a[0])
+		lo := e.tt.Int(new(big.Int).Neg(new(big.Int).Lsh(big.NewInt(1), 63)))
+		hi := e.tt.Int(new(big.Int).Lsh(big.NewInt(1), 63))
+		if !e.branch(e.tt.And(e.tt.IntCmp(">=", t, lo), e.tt.IntCmp("<", t, hi))) {
+			panic(goPanic{"Int64() out of bound"})
+		}
+		return e.exactBV64(t)
+	})
 	reg("("+sdkT+"Int).Uint64", func(e *Exec, a []Value) Value { return e.int2bv64(e.big(a[0])) })
 	reg("("+sdkT+"Int).IsInt64", func(e *Exec, a []Value) Value {
 		t := e.big(a[0])
@@ -176,6 +201,24 @@ func init() {
 		return bv(e.tt.IntBin("*", e.big(a[0]), e.sbv2int(a[1].(*Term))))
 	})
 	reg("("+sdkT+"Dec).TruncateInt", func(e *Exec, a []Value) Value { return bv(e.truncDiv(e.big(a[0]), prec)) })
+	reg("("+sdkT+"Dec).TruncateInt64", func(e *Exec, a []Value) Value {
+		t := e.truncDiv(e.big(a[0]), prec)
+		lo := e.tt.Int(new(big.Int).Neg(new(big.Int).Lsh(big.NewInt(1), 63)))
+		hi := e.tt.Int(new(big.Int).Lsh(big.NewInt(1), 63))
+		if !e.branch(e.tt.And(e.tt.IntCmp(">=", t, lo), e.tt.IntCmp("<", t, hi))) {
+			panic(goPanic{"Int64() out of bound"})
+		}
+		return e.exactBV64(t)
+	})
+	reg("("+sdkT+"Dec).RoundInt64", func(e *Exec, a []Value) Value {
+		t := e.chop(e.big(a[0]))
+		lo := e.tt.Int(new(big.Int).Neg(new(big.Int).Lsh(big.NewInt(1), 63)))
+		hi := e.tt.Int(new(big.Int).Lsh(big.NewInt(1), 63))
+		if !e.branch(e.tt.And(e.tt.IntCmp(">=", t, lo), e.tt.IntCmp("<", t, hi))) {
+			panic(goPanic{"Int64() out of bound"})
+		}
+		return e.exactBV64(t)
+	})
 	reg("("+sdkT+"Dec).TruncateDec", func(e *Exec, a []Value) Value {
 		return bv(e.tt.IntBin("*", e.truncDiv(e.big(a[0]), prec), e.tt.Int(prec)))
 	})
